@@ -97,7 +97,21 @@ _RE_COV = re.compile(r"^<(\w+) line \d+, col \d+ to line \d+, col \d+ of module 
 
 def _parse(r):
     gen = dist = 0
-    for line in r.out.splitlines():
+    # TLC's pretty printer wraps long tuples over several lines: join them back before parsing
+    joined, acc = [], None
+    for raw in r.out.splitlines():
+        if acc is not None:
+            acc += " " + raw.strip()
+            if raw.rstrip().endswith(">>"):
+                joined.append(acc); acc = None
+            continue
+        if raw.startswith("<<") and not raw.rstrip().endswith(">>"):
+            acc = raw.rstrip()
+            continue
+        joined.append(raw)
+    if acc is not None:
+        joined.append(acc)
+    for line in joined:
         m = _RE_STATES.search(line)
         if m:
             gen, dist = int(m.group(1)), int(m.group(2))
@@ -157,10 +171,11 @@ def printed_tuples(r, tag, budget=None):
 
 def printed_raw(r, tag):
     """Yield raw text after the tag for lines printed as <<"tag", ...>>."""
-    pre = '<<"%s", ' % tag
+    rx = re.compile(r'^<<\s*"%s",\s*(.*?)\s*>>$' % re.escape(tag))
     for line in r.printed:
-        if line.startswith(pre) and line.endswith('>>'):
-            yield line[len(pre):-2]
+        m = rx.match(line)
+        if m:
+            yield m.group(1)
 
 
 # ---------------------------------------------------------------------------------------------
@@ -261,13 +276,18 @@ def validate_trace(spec_dir, module, cfg, trace_path, nshards=16, xmx="3g", time
                     done = True
                 if len(parts) > 1:
                     v.checked += int(parts[1])
+            nraw = r.out.count('"REJECT"')
+            nparsed = 0
             for raw in printed_raw(r, "REJECT"):
-                m = re.match(r'(\d+), "([^"]*)", "([^"]*)"', raw)
+                nparsed += 1
+                m = re.match(r'(\d+),\s*"([^"]*)",\s*"([^"]*)"', raw)
                 if not m:
                     continue
                 ln = int(m.group(1))
                 v.rejects.append({"line": linemap[ln - 1] if 0 < ln <= len(linemap) else ln,
                                   "pid": m.group(2), "clause": m.group(3)})
+            if nraw != nparsed:
+                v.infra = "could not parse every REJECT line of %s (%d printed, %d parsed)" % (fn, nraw, nparsed)
             if r.violation is not None or not r.ok:
                 v.infra = "trace spec run ended abnormally on %s: %s\n%s" % (fn, r.violation, r.out[-3000:])
             elif not done:
